@@ -47,14 +47,14 @@ func Compare(slice []any, i int, j int, orderBy OrderByDefinition) (bool, error)
 	if orderBy[0].Value {
 		direction = -1
 	}
-	first, err := ExecReader(slice[i], key)
+	first, err := sortKey(slice[i], key)
 	if err != nil {
 		return false, err
 	}
 	if first == nil {
 		return false, nil
 	}
-	second, err := ExecReader(slice[j], key)
+	second, err := sortKey(slice[j], key)
 	if err != nil {
 		return false, err
 	}
@@ -70,4 +70,15 @@ func Compare(slice []any, i int, j int, orderBy OrderByDefinition) (bool, error)
 		return Compare(slice, i, j, orderBy[1:])
 	}
 	return res == direction, nil
+}
+
+// sortKey reads the value a row is ordered by. The key is an output column first - whatever
+// its name is made of (an alias such as `my-col` or `é` is no path) - and a path otherwise
+func sortKey(row any, key string) (any, error) {
+	if columns, ok := row.(map[string]any); ok {
+		if value, ok := columns[key]; ok {
+			return value, nil
+		}
+	}
+	return ExecReader(row, key)
 }
